@@ -1729,8 +1729,6 @@ BTree_rangeSearch(BTree *self, PyObject *args, PyObject *kw, char type)
             PER_UNUSE(lowbucket);
             if (bucketlen > 1)
                 lowoffset = 1;
-            else if (self->len < 2)
-                goto empty;
             else
             {    /* move to first item in next bucket */
                 Bucket *next;
@@ -1738,7 +1736,8 @@ BTree_rangeSearch(BTree *self, PyObject *args, PyObject *kw, char type)
                     goto err;
                 next = lowbucket->next;
                 PER_UNUSE(lowbucket);
-                assert(next != NULL);
+                if (next == NULL)   /* the only bucket holds a single key */
+                    goto empty;
                 lowbucket = next;
                 /* and lowoffset is still 0 */
                 assert(lowoffset == 0);
@@ -1773,7 +1772,7 @@ BTree_rangeSearch(BTree *self, PyObject *args, PyObject *kw, char type)
         {
             if (highoffset > 0)
                 --highoffset;
-            else if (self->len < 2)
+            else if (highbucket == self->firstbucket)
                 goto empty_and_decref_buckets;
             else /* move to last item of preceding bucket */
             {
